@@ -1,4 +1,5 @@
 import Memterm.Props.C12
+import Memterm.Proofs.DrawFrame
 
 /-
   C14 — DECSC/DECRC save and restore the cursor state as a LIFO stack.
@@ -208,25 +209,8 @@ theorem sp_resetMode (s : Screen) (h : Inv s) (ms : List Nat) (p : Bool) :
   · exact h3
 
 theorem sp_foldl_drawChar (env : Env) (cs : List Nat) (s : Screen) :
-    (cs.foldl (drawChar env) s).savepoints = s.savepoints := by
-  induction cs generalizing s with
-  | nil => rfl
-  | cons c cs ih =>
-    simp only [List.foldl_cons]
-    rw [ih]
-    unfold drawChar
-    simp only
-    have hl : ∀ u : Screen, (linefeed u).savepoints = u.savepoints := by
-      intro u; unfold linefeed index; simp only; split <;> split <;> rfl
-    split
-    · simp only [setCursorX, setCell]
-      split <;> (try split) <;> (try split) <;> (try split) <;> first | rfl | (simp only [insertCharacters, markDirty, setCursorX, hl, cariageReturn]) | skip
-      all_goals first | rfl | (rw [hl]; rfl) | skip
-    · split
-      · split
-        · rfl
-        · split <;> rfl
-      · rfl
+    (cs.foldl (drawChar env) s).savepoints = s.savepoints :=
+  (ss_foldl_drawChar env cs s).2.2.2.2.2.2.2.2.2.2.2.2.1
 
 /-- the saved-cursor stack changes only through DECSC (push) and DECRC (pop) -/
 theorem stack_discipline (env : Env) (s : Screen) (h : Inv s) (c : Call) :
